@@ -139,7 +139,7 @@ func init() {
 			{Run: "Grefcount", Rules: []string{"R4"}},
 			{Run: "R1", Scope: []string{"refcount", "ccontainer", "promise", "broadcast"}, Rules: []string{"R11"}},
 		},
-		Floors:      map[string]int{"R3a": 2, "R3c": 1, "R6a": 2, "R12": 4},
+		Floors:      map[string]int{"R3a": 2, "R3c": 1, "R6a": 1, "R12": 4},
 		Explanation: "One resolver at a time: resolve waits for the previous resolver before it calls the resolver and before it closes its done channel; startResolveLocked hands over a fresh channel and the previous one (R3). released() restarts exactly when the generation is unchanged, under the lock, taken with TryLock or from a goroutine (no re-acquisition of a held lock, acyclic lock order: R11). Late references get the current value under the lock; Ref.cb is nil-tested at every call site (documented nil callback)." + structural,
 		NotDecided:  "progress as such ('a resolver call is in progress or its result delivered' at quiescent points) — needs histories.",
 		Assumptions: []string{A1, A3, A4},
